@@ -4,7 +4,7 @@
     sentinel and is tiled EXACTLY by free-list nodes and objects, the free list is strictly increasing,
     coalesced (no two chunks adjacent), sizes positive and aligned, all mark bits clear. *)
 From Coq Require Import ZArith List Permutation.
-From ChibiV Require Import Gen.C10_Consts C10.Model C10.Spec C10.Proofs C10.Sweep C10.Theorems C10.More C10.Oom C10.SizeClass C10.Examples C10.Closed C10.Image C10.ImageProofs.
+From ChibiV Require Import Gen.C10_Consts C10.Model C10.Spec C10.Proofs C10.Sweep C10.Theorems C10.More C10.Oom C10.SizeClass C10.Examples C10.Closed C10.Image C10.ImageProofs C10.OneClass.
 Import ListNotations.
 Local Open Scope Z_scope.
 
@@ -218,3 +218,31 @@ Theorem rooted_survives : forall r sl st st' mf sf x,
   In x (obj_addrs st) -> reach sl (root_list r) x -> In x (obj_addrs st').
 Proof. exact rooted_survives_lemma. Qed.
 Print Assumptions rooted_survives.
+
+(** round 3, job 2: the heap bound for SINGLE-SIZE-CLASS histories, with [hist_ok] (the premise of heap_bounded_partial)
+    DERIVED.  [J n st]: Inv, every object has size n and lies on the n-grid of its segment (offset = hdr + k*n), every
+    segment can hold one; [class_op n]: every request has size n; [live_hist n Lv K st ops]: whenever the slow path
+    collects, the survivors total at most Lv bytes and the heap has at most K segments.  Then each slow-path collection
+    frees a chunk that fits or nothing, the request fits the last segment, and the bytes it does not free are at most
+    Lv + (hdr + n) * K: per segment the header and a tail of fewer than n bytes (every other free chunk is a multiple
+    of n, so at a slow path the tail is the only free chunk). *)
+Theorem single_class_hist_ok : forall n, 0 < n -> (unit_sz | n) -> forall Lv K ops st,
+  J n st -> Forall (class_op n) ops -> live_hist n Lv K st ops -> hist_ok (Lv + (hdr_sz + n) * K) st ops.
+Proof. exact single_class_hist_ok_lemma. Qed.
+Print Assumptions single_class_hist_ok.
+
+(** ... hence, from a fresh heap, total <= max(initial, (1+FACTOR)/RATIO * (Lv + (hdr+n)*K)) — in terms of the program's
+    live data and the per-segment overhead only (K segments; with doubling segments K is logarithmic in the bound) *)
+Theorem heap_bounded_single_class : forall n, 0 < n -> (unit_sz | n) -> forall size0 max Lv K ops,
+  hdr_sz < size0 -> (unit_sz | size0) -> n <= size0 ->
+  Forall (class_op n) ops -> live_hist n Lv K (init size0 max) ops ->
+  ratio_num * total_size (fold_left step ops (init size0 max))
+  <= Z.max (ratio_num * size0) ((1 + factor_num) * ratio_den * (Lv + (hdr_sz + n) * K)).
+Proof. exact heap_bounded_single_class_lemma. Qed.
+Print Assumptions heap_bounded_single_class.
+
+(** the grid invariant itself: preserved by every operation of the class (it is NOT a consequence of Inv) *)
+Theorem single_class_grid_invariant : forall n, 0 < n -> (unit_sz | n) -> forall st o,
+  J n st -> class_op n o -> J n (step st o).
+Proof. exact step_J. Qed.
+Print Assumptions single_class_grid_invariant.
